@@ -1,8 +1,214 @@
 //! Extra implementation-side modes for property C10 (the shared `parse` mode lives in parse.rs).
+//!
+//! * `(c10-kinds Name...)`           sweep of `ErrorKind` variants through `Command::error`,
+//!                                   `Error::raw` and `Error::new`: stream and exit code of each
+//! * `(c10-sugg (cmd ...) (argv ...))` parse and print kind/stream/code plus every suggestion the
+//!                                   error carries in its context (`x-pv` extension: possible values)
+//! * `(c10-dym xTOK (cands x...) (sims ...))`  the full `did_you_mean` vector, observed through
+//!                                   `ContextKind::SuggestedSubcommand` of an invalid-subcommand error
+//! * `(c10-flag (cmd ...) (arg xA) (rem x...) (sims ...))`  the result of `did_you_mean_flag`, observed
+//!                                   through `SuggestedArg` / the "'sub --flag' exists" hint
+use crate::hex;
+use crate::modes::parse::{build_cmd_with, kind_name, EnvGuard};
 use crate::sexp::Sx;
+use clap::builder::PossibleValue;
+use clap::error::{ContextKind, ContextValue, ErrorKind};
+use clap::{Arg, Command};
+use std::ffi::OsString;
+use std::os::unix::ffi::OsStringExt;
+
+fn kind_of(name: &str) -> Option<ErrorKind> {
+    Some(match name {
+        "InvalidValue" => ErrorKind::InvalidValue,
+        "UnknownArgument" => ErrorKind::UnknownArgument,
+        "InvalidSubcommand" => ErrorKind::InvalidSubcommand,
+        "NoEquals" => ErrorKind::NoEquals,
+        "ValueValidation" => ErrorKind::ValueValidation,
+        "TooManyValues" => ErrorKind::TooManyValues,
+        "TooFewValues" => ErrorKind::TooFewValues,
+        "WrongNumberOfValues" => ErrorKind::WrongNumberOfValues,
+        "ArgumentConflict" => ErrorKind::ArgumentConflict,
+        "MissingRequiredArgument" => ErrorKind::MissingRequiredArgument,
+        "MissingSubcommand" => ErrorKind::MissingSubcommand,
+        "InvalidUtf8" => ErrorKind::InvalidUtf8,
+        "DisplayHelp" => ErrorKind::DisplayHelp,
+        "DisplayHelpOnMissingArgumentOrSubcommand" => ErrorKind::DisplayHelpOnMissingArgumentOrSubcommand,
+        "DisplayVersion" => ErrorKind::DisplayVersion,
+        "Io" => ErrorKind::Io,
+        "Format" => ErrorKind::Format,
+        _ => return None,
+    })
+}
+
+fn stream_code(e: &clap::Error) -> String {
+    format!("{} {}", if e.use_stderr() { "stderr" } else { "stdout" }, e.exit_code())
+}
+
+fn kinds(args: &[Sx]) -> String {
+    let mut out = Vec::new();
+    for a in args {
+        let name = a.sym();
+        match kind_of(name) {
+            None => out.push(format!("({name} unknown)")),
+            Some(k) => {
+                let mut cmd = Command::new("p");
+                let e1 = cmd.error(k, "m");
+                let e2 = clap::Error::raw(k, "m");
+                let e3 = clap::Error::new(k);
+                let (s1, s2, s3) = (stream_code(&e1), stream_code(&e2), stream_code(&e3));
+                // the kind reported back must be the one asked for
+                let back = kind_name(e1.kind());
+                if s1 == s2 && s2 == s3 && back == name {
+                    out.push(format!("({name} {s1})"));
+                } else {
+                    out.push(format!("({name} inconsistent {s1} / {s2} / {s3} / {back})"));
+                }
+            }
+        }
+    }
+    out.join(" ")
+}
+
+fn pv_ext(a: Arg, items: &[Sx]) -> Arg {
+    let mut a = a;
+    for it in &items[1..] {
+        if it.head() == "x-pv" {
+            let mut pvs = Vec::new();
+            for v in it.args() {
+                match v {
+                    Sx::List(l) if !l.is_empty() && l[0].sym() == "hidden" => {
+                        pvs.push(PossibleValue::new(l[1].string()).hide(true))
+                    }
+                    Sx::List(l) if !l.is_empty() && l[0].sym() == "alias" => {
+                        pvs.push(PossibleValue::new(l[1].string()).alias(l[2].string()))
+                    }
+                    x => pvs.push(PossibleValue::new(x.string())),
+                }
+            }
+            a = a.value_parser(pvs);
+        }
+    }
+    a
+}
+
+fn strs(v: &ContextValue) -> Vec<String> {
+    match v {
+        ContextValue::String(s) => vec![s.clone()],
+        ContextValue::Strings(l) => l.clone(),
+        ContextValue::StyledStr(s) => vec![s.to_string()],
+        ContextValue::StyledStrs(l) => l.iter().map(|s| s.to_string()).collect(),
+        _ => vec![],
+    }
+}
+
+fn hexes(l: &[String]) -> String {
+    l.iter().map(|s| hex(s.as_bytes())).collect::<Vec<_>>().join(" ")
+}
+
+fn argv_of(x: &Sx) -> Vec<OsString> {
+    x.args().iter().map(|t| OsString::from_vec(t.bytes())).collect()
+}
+
+fn sugg(a: &[Sx]) -> String {
+    let mut env = EnvGuard(vec![]);
+    let cmd = match std::panic::catch_unwind(std::panic::AssertUnwindSafe(|| {
+        let c = build_cmd_with(a[0].args(), &mut env, &pv_ext, &|c, _| c);
+        let mut probe = c.clone();
+        probe.build();
+        c
+    })) {
+        Ok(c) => c,
+        Err(_) => return "INVALID".into(),
+    };
+    match cmd.try_get_matches_from(argv_of(&a[1])) {
+        Ok(_) => "ok".into(),
+        Err(e) => {
+            let mut parts = vec![format!("err {} {}", kind_name(e.kind()), stream_code(&e))];
+            for (k, v) in e.context() {
+                let tag = match k {
+                    ContextKind::SuggestedArg => "sarg",
+                    ContextKind::SuggestedSubcommand => "ssub",
+                    ContextKind::SuggestedValue => "sval",
+                    ContextKind::SuggestedCommand => "scmd",
+                    ContextKind::Suggested => "hint",
+                    ContextKind::ValidSubcommand => "vsub",
+                    ContextKind::ValidValue => "vval",
+                    ContextKind::InvalidArg => "iarg",
+                    ContextKind::InvalidSubcommand => "isub",
+                    ContextKind::InvalidValue => "ival",
+                    ContextKind::Usage => "usage",
+                    _ => continue,
+                };
+                parts.push(format!("({} {})", tag, hexes(&strs(v))));
+            }
+            // rendering must not fail either
+            let _ = e.render().to_string();
+            parts.join(" ")
+        }
+    }
+}
+
+fn dym(a: &[Sx]) -> String {
+    let tok = a[0].bytes();
+    let mut cmd = Command::new("p").disable_help_subcommand(true).disable_help_flag(true);
+    for c in a[1].args() {
+        cmd = cmd.subcommand(Command::new(c.string()));
+    }
+    match cmd.try_get_matches_from(vec![OsString::from("p"), OsString::from_vec(tok)]) {
+        Ok(_) => "matched".into(),
+        Err(e) => {
+            if e.kind() != ErrorKind::InvalidSubcommand {
+                return format!("other {}", kind_name(e.kind()));
+            }
+            match e.get(ContextKind::SuggestedSubcommand) {
+                Some(v) => format!("({})", hexes(&strs(v))),
+                None => "()".into(),
+            }
+        }
+    }
+}
+
+fn flag(a: &[Sx]) -> String {
+    let mut env = EnvGuard(vec![]);
+    let cmd = build_cmd_with(a[0].args(), &mut env, &|a, _| a, &|c, _| c);
+    let mut argv = vec![OsString::from("prog")];
+    let mut f = b"--".to_vec();
+    f.extend(a[1].args()[0].bytes());
+    argv.push(OsString::from_vec(f));
+    argv.extend(argv_of(&a[2]));
+    match cmd.try_get_matches_from(argv) {
+        Ok(_) => "matched".into(),
+        Err(e) => {
+            if e.kind() != ErrorKind::UnknownArgument {
+                return format!("other {}", kind_name(e.kind()));
+            }
+            if let Some(ContextValue::String(s)) = e.get(ContextKind::SuggestedArg) {
+                return format!("(flag {} none)", hex(s.trim_start_matches('-').as_bytes()));
+            }
+            if let Some(v) = e.get(ContextKind::Suggested) {
+                for h in strs(v) {
+                    // "'<sub> --<flag>' exists"
+                    if let Some(rest) = h.strip_suffix("' exists") {
+                        if let Some(body) = rest.strip_prefix('\'') {
+                            if let Some((sub, fl)) = body.split_once(" --") {
+                                return format!("(flag {} {})", hex(fl.as_bytes()), hex(sub.as_bytes()));
+                            }
+                        }
+                    }
+                }
+            }
+            "none".into()
+        }
+    }
+}
 
 /// Returns `Some(result)` when `head` is a mode of this file.
 pub fn dispatch(head: &str, args: &[Sx]) -> Option<String> {
-    let _ = (head, args);
-    None
+    match head {
+        "c10-kinds" => Some(kinds(args)),
+        "c10-sugg" => Some(sugg(args)),
+        "c10-dym" => Some(dym(args)),
+        "c10-flag" => Some(flag(args)),
+        _ => None,
+    }
 }
